@@ -1,7 +1,7 @@
 (* C16 proofs, part 1: vectors, the per-row balance lemmas (every row update changes the global counters by
    exactly the change of the row's contribution) and the inductive invariant ledger_inv. *)
 From Coq Require Import List ZArith NArith Bool Arith Lia.
-From LTV.C16 Require Import ParamsGen Model.
+From LTV.C16 Require Import Model.
 Import ListNotations.
 Open Scope Z_scope.
 
@@ -219,6 +219,3 @@ Lemma no_dissimilar_example :
   (exists r, get_row 0 (rows s) = Some r /\ row_zero r = true /\ tc r = 0 /\ closes r = 1).
 Proof. vm_compute. repeat split. eexists. repeat split. Qed.
 
-Lemma params_ok_now :
-  Params.c16_hs_part1 = 48%N /\ Params.c16_hs_size = 68%N /\ Params.c16_piece_hdr = 13%N /\ (0 < Params.c16_max_size_pex)%Z.
-Proof. vm_compute. repeat split; congruence. Qed.
